@@ -416,3 +416,13 @@ def changed_sources(prop):
     new = source_fingerprints(files)
     ch = sorted(k for k in set(old) | set(new) if old.get(k) != new.get(k))
     return ch, rec.get("base_commit")
+
+
+def translator_baseline():
+    """functions that are outside the translatable subset on the pinned (repaired) tree — committed, never written at run
+    time (tools/translator_baseline.json); for these the hand model + correspondence carry the tie (DESIGN §4.1)"""
+    try:
+        with open(os.path.join(VERIF, "tools", "translator_baseline.json")) as fh:
+            return set(json.load(fh))
+    except OSError:
+        return set()
